@@ -111,12 +111,7 @@ pub fn reference(hist: usize, keys: &[Key]) -> View {
     }
 }
 
-#[derive(Clone)]
-pub struct St {
-    hist: usize,
-    keys: Vec<u8>,
-    digest: u64,
-}
+use crate::bfs::St;
 
 fn digest(v: &View, hist: usize) -> u64 {
     // Submitted commands are output, not state: what remains able to influence the future is the
@@ -214,15 +209,15 @@ pub fn run(ctx: &Ctx) -> i32 {
     let step = |acc: &mut Acc, s: &St| -> Vec<St> {
         let mut out = Vec::new();
         for a in 0..ALPHABET.len() as u8 {
-            let mut ids = s.keys.clone();
+            let mut ids = s.hist.clone();
             ids.push(a);
             let keys = keys_of(&ids);
             acc.eval("transition");
-            let (verdict, view) = judge(s.hist, &keys);
+            let (verdict, view) = judge(s.tag as usize, &keys);
             match verdict {
                 Some((sig, what)) => {
                     acc.outcome(format!("violation:{sig}"));
-                    acc.violation(sig, what, case_json(s.hist, &keys));
+                    acc.violation(sig, what, case_json(s.tag as usize, &keys));
                 }
                 None => {
                     let view = view.unwrap();
@@ -240,7 +235,7 @@ pub fn run(ctx: &Ctx) -> i32 {
                         acc.sample(format!("{:?}", ids), json!({"keys": keys.iter().map(|k| key_name(*k)).collect::<Vec<_>>(), "line": view.line, "cursor": view.cursor, "submitted": view.commands}));
                     }
                     acc.nontrivial();
-                    out.push(St { hist: s.hist, digest: digest(&view, s.hist), keys: ids });
+                    out.push(St { tag: s.tag, digest: digest(&view, s.tag as usize), hist: ids });
                 }
             }
         }
@@ -250,17 +245,17 @@ pub fn run(ctx: &Ctx) -> i32 {
     let roots: Vec<St> = (0..HISTORIES.len())
         .map(|h| {
             let v = reference(h, &[]);
-            St { hist: h, keys: vec![], digest: digest(&v, h) }
+            St { tag: h as u32, hist: vec![], digest: digest(&v, h) }
         })
         .collect();
 
     // 1. deduplicated search (deep)
     let cfg = bfs::Config { max_depth: dedup_depth, dedup: true, state_cap: 6_000_000, wall_cap_s: ctx.tier.pick(40, 900) };
-    let (mut acc, stats) = bfs::explore(roots.clone(), &cfg, |s| s.digest, step);
+    let (mut acc, stats) = bfs::explore(roots.clone(), &cfg, None, step);
     // 2. raw enumeration without state merging (shallower): cross-checks that merging only merged
     //    states with equal futures -- every raw history is judged on its own.
     let cfg_raw = bfs::Config { max_depth: raw_depth, dedup: false, state_cap: usize::MAX, wall_cap_s: ctx.tier.pick(40, 900) };
-    let (acc_raw, stats_raw) = bfs::explore(roots, &cfg_raw, |s| s.digest, step);
+    let (acc_raw, stats_raw) = bfs::explore(roots, &cfg_raw, None, step);
     let raw_transitions = stats_raw.transitions;
     acc.merge(acc_raw);
 
